@@ -24,13 +24,16 @@ static void run_w(vrt::Exec& x)
 {
     vrt::alias("w", "m0", "m");
     vrt::alias("w", "a0", "pw");
+    vrt::g_cell = vrt::CellStats();
     W* A = mk<W, WRAP>(x);
+    vrt::g_cell.copyThrowsLeft = (int)x.param("copythrows", 0);
     for (auto& menus : vrt::parse_prog(x.rt.cfg.prog)) {
         x.worker([A, menus] {
             for (auto& menu : menus) {
                 int code = vrt::pick_and_call(menu, names);
                 int kd = code / 100, a = (code / 10) % 10, b = code % 10;
                 long r = 0;
+                try {
                 if (kd == 0) {
                     Reg v = A->load();
                     r = v.value();
@@ -55,6 +58,10 @@ static void run_w(vrt::Exec& x)
                         bool ok = A->compare_exchange(expected, Reg(b));
                         r = ok ? 10 + expected.value() : expected.value();
                     }
+                }
+                }
+                catch (const vrt::CellThrow&) {
+                    r = 99;  // the wrapped type's copy / assignment threw: the operation had no effect
                 }
                 vrt::ret_ev(names[(size_t)code], r);
             }
